@@ -325,7 +325,7 @@ def failure_signature(own, chain, species, nets, Ks, c0, xs, dev, index, mag=Non
     return out
 
 
-def judge_common(ctx, species, x, c0, detail, own=None, chain=None, nets=(), Ks=(), opts=None):
+def judge_common(ctx, species, x, c0, detail, own=None, chain=None, nets=(), Ks=(), opts=None, sane_ref=None):
     """Non-negativity, finiteness and conservation.  Returns False when a failure was reported."""
     import mpmath
     xs = [float(v) for v in x]
@@ -345,7 +345,14 @@ def judge_common(ctx, species, x, c0, detail, own=None, chain=None, nets=(), Ks=
     for s in species:
         bound = min(tot0[k] / n for k, n in G.COMP[s].items() if k != 0 and n > 0)
         if conc[s] > bound * (1 + 1e-6):       # chempy's own test uses 1e-9; 1e-6 keeps float noise out
-            ctx.fail("exceeds_elemental_upper_bound", species=s, got=conc[s], bound=bound, x=xs, **detail)
+            more = {}
+            if sane_ref is not None:
+                # the state chempy itself judged `sane` against, when that is not the point's own initial state
+                # (EqSystem.roots uses the base state for every point of the series): classification only
+                tr = G.totals(sane_ref, species)
+                bref = min(tr[k] / n for k, n in G.COMP[s].items() if k != 0 and n > 0)
+                more["within_bound_of_sanity_reference_state"] = bool(conc[s] <= bref * (1 + 1e-9))
+            ctx.fail("exceeds_elemental_upper_bound", species=s, got=conc[s], bound=bound, x=xs, **dict(more, **detail))
             return False
     with mpmath.workdps(30):
         for j, k in enumerate(G.comp_keys(species)):
@@ -383,13 +390,13 @@ def build08(M):
     return es
 
 
-def judge_homog(ctx, M, x, chain, own=None, extra=None, opts=None):
+def judge_homog(ctx, M, x, chain, own=None, extra=None, opts=None, sane_ref=None):
     """True when the result is genuine."""
     import mpmath
     xs = [float(v) for v in x]
     detail = {"chain": chain, "min_over_max": spread(xs)}
     detail.update(extra or {})
-    if not judge_common(ctx, M.species, x, M.c0, detail, own, chain, M.nets, M.K, opts):
+    if not judge_common(ctx, M.species, x, M.c0, detail, own, chain, M.nets, M.K, opts, sane_ref):
         return False
     conc = dict(zip(M.species, xs))
     for i, net in enumerate(M.nets):
@@ -473,7 +480,7 @@ def _rate(case, ctx, chain, mirror):
         elif not mirror:
             judge_homog(ctx, M, out[0], chain, out[3])      # (the mirrored batches only count; 'homogeneous' judges
             #                                                  the results of these chains on the same domain)
-    ctx.label("failures_in_batch=%d" % nfail if nfail <= 10 else "failures_in_batch>10", "batch_size=%d" % len(bodies))
+    ctx.label("failures_in_batch=%d" % nfail if nfail <= len(bodies) // 20 else "failures_in_batch>limit", "batch_size=%d" % len(bodies))
     for name, has in sorted(_HARD.items()):
         n = sum(1 for b in bodies if has(b["eqs"]))
         ctx.label("%s_in_batch:%s" % (name, "0" if n == 0 else ("1-9" if n < 10 else ">=10")))
@@ -652,7 +659,8 @@ def check_series(case, ctx):
                     return None
                 return _last_stage(again[1])
         judged += 1
-        judge_homog(ctx, P, x, chain, own, extra={"grid_index": list(index), "varied_keys": axes})
+        judge_homog(ctx, P, x, chain, own, extra={"grid_index": list(index), "varied_keys": axes},
+                    sane_ref=M.c0 if M.api == "roots" else None)
     if judged == 0:
         ctx.skip("no_success:" + chain)
         return
